@@ -10,6 +10,8 @@ CONSTANTS
   PhraseSets <- PS_None
   InitShared = {{}}
   FriendUsers = {"u1", "u2", "u3"}
+  InitSess = {TRUE}
+  MaxSess = 0
   MaxCfg = 1000000
   MaxReq = 1000000
   MaxEnv = 1000000
@@ -19,6 +21,7 @@ CONSTANTS
   DirReplyLocks = TRUE
   ScanDirCycles = TRUE
   AlwaysAccumulate = TRUE
+  TickReportsAlways = TRUE
   FlagsTakenAtStart = TRUE
   RevertWithinTick = FALSE
 \* the properties are evaluated by Judge (EntitlementTrace.tla) and reported as marks; the agreement
